@@ -12,6 +12,8 @@ func yieldNative() { runtime.Gosched() }
 
 func slowNative() { time.Sleep(6 * time.Second) }
 
+func busyNative() { time.Sleep(400 * time.Millisecond) }
+
 var yieldSeed uint64 = 88172645463325252
 
 // NativeYield is what the replay build inserts before every statement of the
